@@ -166,6 +166,13 @@ fn c02_extra_inputs() -> Vec<(pipe::Input, String)> {
             out.push((pipe::Input::single(text), supply));
         }
     }
+    // zero-length arrays of types that may be resolved before or after their users (several users, declared on
+    // both sides of the element type, so that some of them are attempted first under any visiting order)
+    for (elem, def, attr) in [("Big", "#[align(16)]\npub type Big {\n    pub a: u128,\n}\n", "#[align(16)]\n"), ("Small", "pub type Small {\n    pub a: u16,\n}\n", "#[align(2)]\n"), ("Ptr", "pub type Ptr {\n    pub p: *const Ptr,\n}\n", "")] {
+        let user = |i: usize| format!("pub type User{i} {{\n    pub tail: [{elem}; 0],\n}}\n{attr}pub type Pre{i} {{\n    pub head: {elem},\n    pub tail: [{elem}; 0],\n}}\n{attr}pub type Wrap{i} {{\n    pub u: User{i},\n    pub arr: [User{i}; 2],\n}}\n");
+        let text = format!("{}{}{}{}{}{}{}", user(0), user(1), user(2), def, user(3), user(4), user(5));
+        out.push((pipe::Input::single(text), String::new()));
+    }
     out.push((pipe::Input::single("pub type Empty {\n}\npub type Holder {\n    pub e: Empty,\n    pub x: u64,\n}\npub type Arr {\n    pub e: [Empty; 4],\n}\n#[size(16)]\npub type Opaque;\n#[size(3), packed]\npub type Odd;\n".to_string()), String::new()));
     for nf in 0..=4usize {
         for gap in 0..3usize {
